@@ -43,6 +43,8 @@ SH = SHM = "ghedesigner.shape"
 
 
 def _bool_eval(node: ast.expr, val: dict) -> bool:
+    if type(val).__name__ == "_Env":
+        return bool(_code_eval(node, val))
     if isinstance(node, ast.BoolOp):
         vs = [_bool_eval(v, val) for v in node.values]
         return all(vs) if isinstance(node.op, ast.And) else any(vs)
@@ -73,6 +75,116 @@ def _keeps(stmts, val: dict, sink: str):
         elif isinstance(s, ast.Expr) and isinstance(s.value, ast.Call) and isinstance(s.value.func, ast.Attribute) and s.value.func.attr == "append" and attr_chain(s.value.func.value) == sink:
             return True
     return False
+
+
+def _code_eval(node: ast.expr, env: dict):
+    """conditions over one classification code:  r == inside, r != on_edge, r in (inside, on_edge), keep_contour, not .., and / or"""
+    if isinstance(node, ast.BoolOp):
+        vs = [_code_eval(v, env) for v in node.values]
+        return all(vs) if isinstance(node.op, ast.And) else any(vs)
+    if isinstance(node, ast.UnaryOp) and isinstance(node.op, ast.Not):
+        return not _code_eval(node.operand, env)
+    if isinstance(node, ast.Constant):
+        return node.value
+    if isinstance(node, ast.Name):
+        if node.id not in env:
+            raise AnalysisError(f"remove_cutout: unknown atom '{node.id}' in a fold condition")
+        return env[node.id]
+    if isinstance(node, ast.UnaryOp) and isinstance(node.op, ast.USub):
+        return -_code_eval(node.operand, env)
+    if isinstance(node, (ast.Tuple, ast.List, ast.Set)):
+        return [_code_eval(e, env) for e in node.elts]
+    if isinstance(node, ast.Compare) and len(node.ops) == 1:
+        a, b = _code_eval(node.left, env), _code_eval(node.comparators[0], env)
+        op = node.ops[0]
+        if isinstance(op, ast.Eq):
+            return a == b
+        if isinstance(op, ast.NotEq):
+            return a != b
+        if isinstance(op, ast.In):
+            return a in b
+        if isinstance(op, ast.NotIn):
+            return a not in b
+        if isinstance(op, ast.Lt):
+            return a < b
+        if isinstance(op, ast.LtE):
+            return a <= b
+        if isinstance(op, ast.Gt):
+            return a > b
+        if isinstance(op, ast.GtE):
+            return a >= b
+    raise AnalysisError(f"remove_cutout: fold condition not understood: {ast.unparse(node)}")
+
+
+def _fold_block(prog, fi, blk: ast.If, sink, in_name, edge_name, ppc, pt_var, res, q):
+    """-> the mode (True: no-go, False: property) that `blk` decides by a fold over the boundaries, after recording its obligations;
+    None if blk is not of that shape.  With codes inside = 1, on-edge = 0, outside = -1 and bad(v) = v is inside, or on-edge without
+    keep_contour (no-go mode; property mode: good(v) = inside, or on-edge with keep_contour), the fold equals the statement iff
+      KEEP(v) = not bad(v)  [= good(v)]  for each code,   the loop breaks exactly on the codes that decide (bad / good ones) - an
+      answer that decides must not be overwritten by the next outline's -,   and the value before the first outline keeps
+      (no-go) / drops (property) the point."""
+    t = blk.test
+    if isinstance(t, ast.Name) and t.id == "remove_inside":
+        mode, body = True, blk.body
+    elif isinstance(t, ast.UnaryOp) and isinstance(t.op, ast.Not) and isinstance(t.operand, ast.Name) and t.operand.id == "remove_inside":
+        mode, body = False, blk.body
+    else:
+        return None
+    loops = [s_ for s_ in body if isinstance(s_, ast.For)]
+    if len(loops) != 1 or not (body and isinstance(body[-1], ast.Continue)):
+        return None
+    lp = loops[0]
+    asg = [s_ for s_ in lp.body if isinstance(s_, ast.Assign) and len(s_.targets) == 1 and isinstance(s_.targets[0], ast.Name) and isinstance(s_.value, ast.Call) and attr_chain(s_.value.func) == "point_polygon_check"]
+    if len(asg) != 1:
+        return None
+    r = asg[0].targets[0].id
+    b = bind_args(ppc, asg[0].value)
+    okc = ast.unparse(b.get("contour")) == ast.unparse(lp.target) and ast.unparse(b.get("point")) == pt_var and ast.unparse(lp.iter) == "boundaries" \
+        and "on_edge_tolerance" in b and ast.unparse(b["on_edge_tolerance"]) == "on_edge_tolerance"
+    label = "no-go" if mode else "property"
+    res.ob("R04.1", f"[{label} mode, fold] every boundary classifies this coordinate with the caller's tolerance", okc, prog.loc(fi, asg[0]))
+    if not okc:
+        res.violation("R04.1", f"fold-classify|{label}", prog.loc(fi, asg[0]), q, f"[{label} mode] the fold classifies {norm_stmt(asg[0])[:90]}: not this point against every boundary with the caller's tolerance")
+    brk = [s_ for s_ in lp.body if isinstance(s_, ast.If) and not s_.orelse and len(s_.body) == 1 and isinstance(s_.body[0], ast.Break)]
+    other = [s_ for s_ in lp.body if s_ is not asg[0] and s_ not in brk]
+    if other or len(brk) > 1:
+        raise AnalysisError(f"{q}: [{label} mode] the fold over the boundaries does more than classify and break")
+    init = next((s_ for s_ in body if isinstance(s_, ast.Assign) and len(s_.targets) == 1 and isinstance(s_.targets[0], ast.Name) and s_.targets[0].id == r and s_.lineno < lp.lineno), None)
+    keep = [s_ for s_ in body if isinstance(s_, ast.If) and s_.lineno > lp.lineno]
+    if init is None or len(keep) != 1:
+        raise AnalysisError(f"{q}: [{label} mode] initial value / keep condition of the fold not found")
+    for K in (True, False):
+        base = {in_name: 1, edge_name: 0, "keep_contour": K, "remove_inside": mode}
+        for v, vname in ((1, "inside"), (0, "on-edge"), (-1, "outside")):
+            env = dict(base)
+            env[r] = v
+            decides = ((v == 1) or (v == 0 and not K)) if mode else ((v == 1) or (v == 0 and K))
+            kept = _keeps(keep, _Env(env), sink)
+            want_keep = (not decides) if mode else decides
+            ok = kept == want_keep
+            res.ob("R04.1", f"[{label} mode, fold, keep_contour={K}] a point whose deciding answer is '{vname}' is {'kept' if want_keep else 'dropped'}", ok, prog.loc(fi, keep[0]))
+            if not ok:
+                res.violation("R04.1", f"fold-keep|{label}|{vname}|{K}", prog.loc(fi, keep[0]), q, f"[{label} mode, keep_contour={K}] with the answer '{vname}' the point is {'kept' if kept else 'dropped'} but must be {'kept' if want_keep else 'dropped'}")
+            breaks = bool(brk) and bool(_code_eval(brk[0].test, env))
+            okb = breaks == decides
+            res.ob("R04.1", f"[{label} mode, fold, keep_contour={K}] the answer '{vname}' {'ends the scan (it decides, a later outline must not overwrite it)' if decides else 'lets the scan go on'}", okb, prog.loc(fi, brk[0]) if brk else prog.loc(fi, lp))
+            if not okb:
+                res.violation("R04.1", f"fold-break|{label}|{vname}|{K}", prog.loc(fi, brk[0]) if brk else prog.loc(fi, lp), q,
+                              (f"[{label} mode, keep_contour={K}] the answer '{vname}' of one outline decides the point, but the scan goes on and the next outline's answer overwrites it: "
+                               f"a borehole {'on the contour of' if v == 0 else 'inside'} one {'no-go zone' if mode else 'property outline'} is judged by another outline only") if decides else
+                              f"[{label} mode, keep_contour={K}] the scan stops at the answer '{vname}', which does not decide the point: later outlines are never asked")
+        env = dict(base)
+        env[r] = _code_eval(init.value, base)
+        kept0 = _keeps(keep, _Env(env), sink)
+        ok0 = kept0 == mode
+        res.ob("R04.1", f"[{label} mode, fold, keep_contour={K}] without any outline the point is {'kept' if mode else 'dropped'}", ok0, prog.loc(fi, init))
+        if not ok0:
+            res.violation("R04.1", f"fold-init|{label}|{K}", prog.loc(fi, init), q, f"[{label} mode] the fold starts from {ast.unparse(init.value)}, with which a point is {'kept' if kept0 else 'dropped'} when there is no outline")
+    return mode
+
+
+class _Env(dict):
+    """valuation for _bool_eval that also evaluates comparisons of a code with the classifier constants"""
 
 
 def check(prog: Program, tier: str) -> Result:
@@ -150,9 +262,20 @@ def check(prog: Program, tier: str) -> Result:
         res.violation("R04.3", f"reader-codes|{consts}", prog.loc(fi, fn), q, f"remove_cutout's code points are {consts}; the classifier returns 1 for inside and 0 for on-edge")
         return res
     decide = [s for s in outer.body if isinstance(s, ast.If)]
+    # a mode that is decided by a FOLD instead of a list of results:  if <mode>: r = init; for b in boundaries: r = classify(b, p);
+    # [if BREAK(r): break]; if KEEP(r): sink.append(p); continue   - decided on the three classifier codes (finite table below)
+    folded_modes = set()
+    for blk in list(decide):
+        fm = _fold_block(prog, fi, blk, sink, in_name, edge_name, ppc, pt_var, res, q)
+        if fm is not None:
+            folded_modes.add(fm)
+            decide.remove(blk)
     n_rows = 0
     bad_rows = []
     for I, E, K, R in itertools.product((False, True), repeat=4):
+        if R in folded_modes:
+            n_rows += 1
+            continue
         val = {f"{in_name} in {results}": I, f"{edge_name} in {results}": E, "keep_contour": K, "remove_inside": R}
         got = _keeps(decide, val, sink)
         want = ((not I) and not (E and not K)) if R else (I or (E and K))
@@ -191,6 +314,26 @@ def _check_calls(prog: Program, res: Result):
         res.ob("R04.2", f"cut-out against {bd}: remove_inside={ri}, keep_contour={kc}", ok, prog.loc(fi, c))
         if not ok:
             res.violation("R04.2", f"call|{bd}|{got}", prog.loc(fi, c), q, f"the {bd} cut-out is called with (boundaries, remove_inside, keep_contour) = {got}; expected ({bd}, {ri}, {kc})")
+        # the outlines handed to the cut are the caller's, all of them: the name may have been re-bound on the way (a None default,
+        # a copy, a wrapped single polygon), but not to a filtered / sliced / recomputed list
+        if isinstance(b.get("boundaries"), ast.Name) and b["boundaries"].id == bd:
+            bad_defs = []
+            for a_ in ast.walk(fi.node):
+                if not (isinstance(a_, ast.Assign) and any(isinstance(t_, ast.Name) and t_.id == bd for t_ in a_.targets)) or a_.lineno > c.lineno:
+                    continue
+                v_ = a_.value
+                guard_ = next((g_ for g_ in ast.walk(fi.node) if isinstance(g_, ast.If) and any(a_ is x for b__ in g_.body for x in ast.walk(b__))), None)
+                gt_ = ast.unparse(guard_.test) if guard_ is not None else ""
+                none_default = isinstance(v_, (ast.List, ast.Tuple)) and not v_.elts and gt_ in (f"{bd} is None", f"None is {bd}", f"not {bd}")
+                wrap_one = isinstance(v_, ast.List) and len(v_.elts) == 1 and isinstance(v_.elts[0], ast.Name) and v_.elts[0].id == bd and "isinstance" in gt_
+                copy_ = (isinstance(v_, ast.Call) and attr_chain(v_.func) in ("list", "tuple", "copy.copy", "copy.deepcopy", "deepcopy") and len(v_.args) == 1 and isinstance(v_.args[0], ast.Name) and v_.args[0].id == bd) \
+                    or (isinstance(v_, ast.Call) and isinstance(v_.func, ast.Attribute) and v_.func.attr == "copy" and isinstance(v_.func.value, ast.Name) and v_.func.value.id == bd)
+                if not (none_default or wrap_one or copy_):
+                    bad_defs.append(a_)
+            res.ob("R04.2", f"the {bd} cut-out receives every outline the caller gave (re-bound only by a None default, a wrapped single polygon or a copy)", not bad_defs, prog.loc(fi, c))
+            for a_ in bad_defs[:1]:
+                res.violation("R04.2", f"outlines-custody|{bd}|{norm_stmt(a_)[:50]}", prog.loc(fi, a_), q,
+                              f"'{norm_stmt(a_)[:90]}' replaces the caller's {bd} before the cut-out: an outline that is dropped or altered on the way no longer removes the boreholes it should")
         src = ast.unparse(b.get("coordinates"))
         asg = next((s for s in ast.walk(fi.node) if isinstance(s, ast.Assign) and any(c is x for x in ast.walk(s))), None)
         out = asg.targets[0].id if asg is not None and isinstance(asg.targets[0], ast.Name) else None
@@ -708,6 +851,16 @@ def _check_order(prog: Program, res: Result):
 
 
 VARIANTS = [
+    Variant("no-go mode decided by an early-exit scan that breaks on 'inside' only: an on-edge answer is overwritten (seeded C04_j)", "break",
+            [(FR, "        boundary_results = []\n", "        if remove_inside:\n            result = -1\n            for boundary in boundaries:\n                result = point_polygon_check(boundary, coordinate, on_edge_tolerance=on_edge_tolerance)\n                if result == inside:\n                    break\n            if result != inside and not (result == on_edge and not keep_contour):\n                new_coordinates.append(coordinate)\n            continue\n        boundary_results = []\n")], "R04.1"),
+    Variant("no-go mode decided by an early-exit scan that breaks on every deciding answer", "benign",
+            [(FR, "        boundary_results = []\n", "        if remove_inside:\n            result = -1\n            for boundary in boundaries:\n                result = point_polygon_check(boundary, coordinate, on_edge_tolerance=on_edge_tolerance)\n                if result == inside or (result == on_edge and not keep_contour):\n                    break\n            if result != inside and not (result == on_edge and not keep_contour):\n                new_coordinates.append(coordinate)\n            continue\n        boundary_results = []\n")]),
+    Variant("no-go zones without a vertex in the property's bounding box are dropped before the cut (seeded C04_i)", "break",
+            [(DOM, "    coordinates_domain_nested, field_descriptors = bi_rectangle_nested(length, width, b_min, b_max_x, b_max_y)\n\n    coordinates_domain_nested_cutout = []",
+              "    no_go_boundaries = [zone for zone in no_go_boundaries if any(min(x) <= x_ng <= max(x) and min(y) <= y_ng <= max(y) for x_ng, y_ng in zone)]\n    coordinates_domain_nested, field_descriptors = bi_rectangle_nested(length, width, b_min, b_max_x, b_max_y)\n\n    coordinates_domain_nested_cutout = []")], "R04.2"),
+    Variant("no-go zones copied into a list before the cut", "benign",
+            [(DOM, "    coordinates_domain_nested, field_descriptors = bi_rectangle_nested(length, width, b_min, b_max_x, b_max_y)\n\n    coordinates_domain_nested_cutout = []",
+              "    no_go_boundaries = list(no_go_boundaries)\n    coordinates_domain_nested, field_descriptors = bi_rectangle_nested(length, width, b_min, b_max_x, b_max_y)\n\n    coordinates_domain_nested_cutout = []")]),
     Variant("ray cast rewritten as a winding number that counts only one orientation as inside (seeded C04_g)", "break",
             [(SHM, "    inside = True\n    px = point[0]", "    winding = 0\n    px = point[0]"), (SHM, "                inside = not inside\n\n    return -1 if inside else 1", "                winding += 1 if v1y < v2y else -1\n\n    return 1 if winding > 0 else -1")], "R04.3"),
     Variant("ray cast rewritten as a winding number, inside iff non-zero", "benign",
